@@ -359,6 +359,28 @@ def gen_cross_key_grid():
         yield {"kind": "tag", "events": [ev(0, items, eid=i)], "classes": [("t1", rules[0][0], None), ("t2", rules[1][0], None)]}
         yield {"kind": "split", "events": [ev(0, items + [("url", "http://www.example.com/(1)%20*;p?FPS:%201#f")], eid=i),
                                           ev(1, [("url", t)] + items)]}
+    # events of ONE call that carry the same values under different keys, the same keys in another order, or the same
+    # keys with the values swapped, against rules that tell them apart by select_keys: any per-call memo of the matching
+    # classes keyed by less than (keys, values) answers the later event with the earlier event's classes
+    for a, b in (("firefox", "code"), ("Firefox", "firefox"), ("x", "")):
+        groups = [[[("app", a)], [("title", a)]],
+                  [[("title", a)], [("app", a)], [("name", a)]],
+                  [[("app", a), ("title", b)], [("app", b), ("title", a)], [("title", a), ("app", b)]],
+                  [[("app", a), ("title", b)], [("title", a), ("app", b)], [("app", a), ("title", b)]],
+                  [[("app", a), ("n", 1)], [("n", 1), ("title", a)], [("app", a), ("n", 1)]]]
+        lit = a
+        rules = [(rule_dict(re.escape(lit), ["app"], "absent"), lit), (rule_dict(re.escape(lit), ["title"], "absent"), lit),
+                 (rule_dict(re.escape(lit), "absent", "absent"), lit), (rule_dict(re.escape(lit), ["name", "app"], True), lit)]
+        for g in groups:
+            evs = [ev(j, items, eid=j) for j, items in enumerate(g)]
+            yield {"kind": "categorize", "events": evs,
+                   "classes": [(["App"], rules[0][0], rules[0][1]), (["Title", "Deep"], rules[1][0], rules[1][1]),
+                               (["Any"], rules[2][0], rules[2][1])]}
+            yield {"kind": "categorize", "events": evs,
+                   "classes": [(["Title", "Deep"], rules[1][0], rules[1][1]), (["NameApp", "X", "Y"], rules[3][0], rules[3][1])]}
+            yield {"kind": "tag", "events": evs,
+                   "classes": [("app-t", rules[0][0], rules[0][1]), ("title-t", rules[1][0], rules[1][1]),
+                               ("any-t", rules[2][0], rules[2][1]), ("nameapp-t", rules[3][0], rules[3][1])]}
 
 
 def rand_data(rng, pool_keys=("app", "title", "url", "n", "lst", "none", "extra", "$category", "$tags", "name")):
